@@ -61,6 +61,7 @@ func Run(ctx *core.Ctx) {
 			cases = append(cases, &bcase{Family: "family", Kind: "family:" + f.Key(), Prog: f.Prog})
 		}
 	}
+	cases = append(cases, crafted()...)
 	compileAll(cases)
 	judgeVerdicts(ctx, cases)
 	runtimeClause(ctx, cases)
@@ -78,13 +79,21 @@ func supplyAll(p *core.Program, g *core.ProgGen) {
 func compileAll(cases []*bcase) {
 	var wg sync.WaitGroup
 	sem := make(chan struct{}, 16)
-	for _, c := range cases {
+	for ci, c := range cases {
 		wg.Add(1)
 		sem <- struct{}{}
+		sameName := ci%4 == 3
 		go func(c *bcase) {
 			defer wg.Done()
 			defer func() { <-sem }()
 			c.Files = core.UnparseProgram(c.Prog, core.Style{})
+			// the name given with a source is a label for messages: every 4th
+			// bundle gives all its files ONE name (or none); the verdict is the same
+			if sameName {
+				for i := range c.Files {
+					c.Files[i].Name = []string{"same.soy", ""}[(ci/4)%2]
+				}
+			}
 			// the same Bundle object is compiled twice: the verdict must not
 			// depend on an earlier compilation
 			b := soy.NewBundle()
